@@ -158,7 +158,9 @@ class C18(object):
     required_counters = ('rename.compared', 'rename.compared.market_code_of_prefix_characters', 'rename.compared.codes_differing_only_by_case', 'embed.compared', 'embed.compared.capitalists_next_to_a_firm_that_retains_profits',
                          'embed.compared.federation_with_default_currency_regions_behind_unused_external_sector', 'embed_book.compared', 'builds.compared_exactly',
                          'embed.with_refused_duplicate_country_attempts',
-                         'embed.with_zone_queries_during_construction')
+                         'embed.with_zone_queries_during_construction',
+                         'embed.with_diagnostic_dump_after_every_country',
+                         'embed.with_one_equation_object_given_to_households_of_several_economies')
 
     def n_cases(self, tier):
         return 24 if tier == 'quick' else 600
@@ -263,18 +265,26 @@ class C18(object):
         # the joint build is also the place where a caller's diagnostics and helpers run: a duplicate-country attempt after
         # every country (refused, caught), the public zone API queried after every declaration
         extras = {'dup_country_attempts': bool(case.get('federation_behind_unused_ext')) or bool(case.get('cap_next_to_retained_profits')),
-                  'query_zone': bool(case.get('cap_next_to_retained_profits'))}
+                  'query_zone': bool(case.get('cap_next_to_retained_profits')),
+                  'log_info_after_every_country': bool(case.get('federation_behind_unused_ext'))}
+        if extras['log_info_after_every_country']:
+            rec.count('embed.with_diagnostic_dump_after_every_country')
         if extras['dup_country_attempts']:
             rec.count('embed.with_refused_duplicate_country_attempts')
         if extras['query_zone']:
             rec.count('embed.with_zone_queries_during_construction')
+        rule = bool(case.get('cap_next_to_retained_profits'))
+        if rule:
+            extras['extra_rule'] = 'shared'
         joint = M.build(spec, unused_ext=case['unused_ext'], region_default_currency=rdc, **extras)
+        if rule and getattr(joint, 'extra_rule_holders', 0) >= 2:
+            rec.count('embed.with_one_equation_object_given_to_households_of_several_economies')
         zone_keys = [[c['key'] for c in z['countries']] for z in spec['zones']]
         alone = []
         for z, keys in zip(spec['zones'], zone_keys):
             sub = {'maxtime': spec['maxtime'], 'ext': False, 'zones': [z], 'imports': [],
                    'gifts': [g for g in spec['gifts'] if g['src'][0] in keys]}
-            alone.append(M.build(sub, region_default_currency=rdc))
+            alone.append(M.build(sub, region_default_currency=rdc, **({'extra_rule': 'own'} if rule else {})))
         if any(a.error is not None for a in alone):
             return {'verdict': 'notjudged', 'shape': shape + '|alone_failed'}
         if joint.error is not None:
